@@ -49,6 +49,18 @@ CLAIMS['C04'] = dict(
     technique='Verus panic-freedom/termination obligations on every extracted function',
 )
 
+CLAIMS['C10'] = dict(
+    text=('PARTIAL (symbol-table layer): for all names, values and prior states, the evaluator\'s bind operation refuses every '
+          'published reserved word (list generated from the reference on every run), refuses to rebind an existing name in strict '
+          'mode (immutability), leaves the table unchanged on refusal, and otherwise changes exactly that one binding (whole-map '
+          'postcondition); a scope snapshot is a copy; a clean (module) VM starts with no bindings. That the translator emits Bind '
+          'for let and the parser refuses env is not covered.'),
+    design_ref='DESIGN.md §5 C10',
+    note=('Trusted: Verus/Z3; BTreeMap modelled by prelude/vmap.rs (documented std behaviour over an abstract map); the reserved-word '
+          'BTreeSet contains exactly the literal list in vm.rs (read from the source on every run); extraction rules in evidence.'),
+    technique='Verus contracts on extracted scope::Stack and VM::binding_push/op_bind/clean_copy over an abstract map view',
+)
+
 NOT_APPLICABLE = {
     'C03': 'unit not completed yet (Val->format value mappers planned, DESIGN §5 C03)',
     'C05': 'unit not completed yet (literal escaping round trip planned, DESIGN §5 C05)',
@@ -56,7 +68,6 @@ NOT_APPLICABLE = {
     'C07': 'relational completeness between the whole type checker and the whole evaluator; no per-function contract within reach of Verus/Kani states "accepts what runs" (DESIGN §5 C07)',
     'C08': 'unit not completed yet (shell escaping and env/flags/exec converters planned, DESIGN §5 C08)',
     'C09': 'quantifies over file-system trees, working directories and import graphs; mechanisms are a generic &mut-AST walker, std::path and RefCell caches re-entered through recursive VM::run - not expressible as function contracts the installed verifiers can check (DESIGN §5 C09)',
-    'C10': 'unit not completed yet (symbol-table layer planned, DESIGN §5 C10)',
     'C11': 'unit not completed yet (position stepping and literal decoding planned, DESIGN §5 C11)',
     'C12': 'well-formedness, escaping and namespaces are produced by the xml-rs dependency; the property is about those bytes and an independent parser (DESIGN §5 C12)',
     'C13': 'unit not completed yet (assert collector and verdict planned, DESIGN §5 C13)',
